@@ -14,6 +14,8 @@ import (
 	"testing/synctest"
 
 	"github.com/KafScale/platform/internal/verifkit"
+	"github.com/KafScale/platform/pkg/cache"
+	"github.com/KafScale/platform/pkg/storage"
 )
 
 // refFrame is one acknowledged batch as it must appear in the partition's log.
@@ -155,6 +157,7 @@ type fetchCaseCfg struct {
 	ReadAhead     int
 	BufBatches    int
 	Restart       bool
+	Gap           bool // flushonack only: a middle segment loses its index, a fresh PartitionLog restored from offset 0 skips it
 }
 
 var fetchMaxBytes = []int32{1, 60, 61, 62, 100, 150, 400, 5000, 1 << 20, 0}
@@ -168,6 +171,7 @@ func runFetchCase(t *testing.T, r *verifkit.Run, which string, rng *rand.Rand, c
 		ReadAhead:     []int{0, 2}[rng.Intn(2)],
 		BufBatches:    2 + rng.Intn(4),
 		Restart:       rng.Intn(3) == 0,
+		Gap:           rng.Intn(4) == 0,
 	}
 	sig = fmt.Sprintf("%+v", fc)
 	synctest.Test(t, func(t *testing.T) {
@@ -285,6 +289,68 @@ func runFetchCase(t *testing.T, r *verifkit.Run, which string, rng *rand.Rand, c
 				l.seal()
 			}
 			sweep(s, r, rng, parts[:], refs, fc, judge)
+			if fc.Gap && fc.Mode == "flushonack" {
+				// A hole in the middle of the log: one middle segment loses its .index (sometimes the .kfs too); a
+				// PartitionLog opened from offset 0 (metadata store lost / rebuilt) skips it as an orphan. Offsets
+				// inside the hole must be answered from the first batch after it.
+				for _, pt := range parts {
+					key := fmt.Sprintf("%s/%d", pt.T, pt.P)
+					l := refs[key]
+					if len(l.frames) < 3 {
+						continue
+					}
+					j := 1 + rng.Intn(len(l.frames)-2)
+					gone := l.frames[j]
+					idxKey := fmt.Sprintf("default/%s/%d/segment-%020d.index", pt.T, pt.P, gone.Base)
+					s.s3.mu.Lock()
+					delete(s.s3.objects, idxKey)
+					if rng.Intn(2) == 0 {
+						delete(s.s3.objects, strings.TrimSuffix(idxKey, ".index")+".kfs")
+					}
+					s.s3.mu.Unlock()
+					gl := &refLog{}
+					for i, f := range l.frames {
+						if i != j {
+							gl.frames = append(gl.frames, f)
+						}
+					}
+					gl.seal()
+					grefs := map[string]*refLog{key: gl}
+					var c *cache.SegmentCache
+					if fc.CacheBytes > 0 {
+						c = cache.NewSegmentCache(fc.CacheBytes)
+					}
+					plog := storage.NewPartitionLog("default", pt.T, pt.P, 0, &s3View{v: s.s3, inst: &instance{id: 77}}, c,
+						storage.PartitionLogConfig{Buffer: storage.WriteBufferConfig{MaxBytes: 1 << 30}, Segment: storage.SegmentWriterConfig{IndexIntervalMessages: fc.IndexInterval}, ReadAheadSegments: fc.ReadAhead, CacheEnabled: c != nil, Logger: discardLogger()}, nil, nil, nil)
+					if _, err := plog.RestoreFromS3(context.Background()); err != nil {
+						r.Count("gap_restore_errors", 1)
+						continue
+					}
+					r.Count("gap_logs_restored", 1)
+					for o := gl.frames[0].Base; o < gl.end(); o++ {
+						for _, mb := range []int32{1, 61, 150, 5000, 1 << 20} {
+							got, rerr := plog.Read(context.Background(), o, mb)
+							if rerr != nil {
+								continue
+							}
+							inGap := o >= gone.Base && o <= gone.Last
+							how := "partitionlog_read_after_restore"
+							if inGap {
+								how = "partitionlog_read_in_gap"
+							}
+							reads++
+							r.Count("reads_"+how, 1)
+							if v := judgeFetch(which, gl, grefs, key, o, mb, gl.end(), got); v != nil {
+								var layout []string
+								for _, f := range gl.frames {
+									layout = append(layout, fmt.Sprintf("%s[%d..%d]@%d+%d", f.ID, f.Base, f.Last, f.Pos, len(f.Bytes)))
+								}
+								r.Violation(v.Class+":log_with_gap", v.Why+" via "+how, map[string]any{"case": ci, "config": fmt.Sprintf("%+v", fc), "partition": key, "offset": o, "max_bytes": mb, "gap": []int64{gone.Base, gone.Last}, "log_layout": layout})
+							}
+						}
+					}
+				}
+			}
 			s.teardown()
 		}
 		nontrivial = reads > 20
